@@ -313,7 +313,7 @@ def gen_jenks_imp_cases(ctx):
     for i in range(count):
         kind = ['distinct', 'ties', 'dyadic', 'ints', 'fewdistinct'][i % 5]
         n = rng.randint(2, nmax)
-        k = rng.randint(1, 5)
+        k = rng.choice([1, 2, 2, 3, 3, 4, 4, 5])
         if kind == 'distinct':
             vals = [float(v) for v in rng.sample(range(-30, 90), n)]
         elif kind == 'ties':
